@@ -18,7 +18,7 @@ from pathlib import Path
 
 from . import core, local_known
 from . import flat_export as fe
-from .c15 import neutralise, SEEDS, ADVERSARIAL_SEEDS
+from .c15 import neutralise, SEEDS, ADVERSARIAL_SEEDS, ALL_FEATURES
 
 CONSTANT_TYPES = {"Num", "Str", "Bytes", "NameConstant", "Ellipsis"}
 
@@ -30,6 +30,7 @@ SIG = {
 }
 
 MORE_ADVERSARIAL = [
+    "async def b(g, d: ctx, /, **h) -> '_pos=3:1-:2':\n    pass\n",
     "x = 'a_pos=3:1-:2'\nfor i in x:\n    pass\nelse:\n    pass\n",
     "s = '''\n/body/1/_type=For\n/body/1/_pos=1:1-\n/body/1/loopelse/_length=1\n/body/1/loopelse/1/_pos=2:1-3-1-:\n'''\n",
     "x = -b\"it's\"\n",
@@ -129,6 +130,16 @@ class E2E:
                 continue
             if self.fails(only):
                 causes.append((f, only))
+        if not causes:
+            # no recorded feature suffices alone (e.g. a `_pos=` string that is only captured because an async def keeps
+            # its body before `returns`): look for the *necessary* ones (removing it alone repairs the case)
+            for f in sorted(feats):
+                try:
+                    without = neutralise(src, ALL_FEATURES - {f})
+                except Exception:
+                    continue
+                if not self.fails(without):
+                    causes.append((f, src))
         if not causes:
             ctx.dist("novel-failure")
             if len(self.novel) < 4:
@@ -296,7 +307,7 @@ def run(ctx):
 
         sources = list(SEEDS) + list(ADVERSARIAL_SEEDS) + MORE_ADVERSARIAL
         gen = fe.Gen(ctx.rng, max_depth=4, adv=0.25)
-        n_gen = 120 if ctx.tier == "quick" else 3000
+        n_gen = 120 if ctx.tier == "quick" else 2000
         for i in range(n_gen):
             src, tree, _ = fe.gen_valid(gen)
             sources.append(src)
@@ -366,7 +377,7 @@ def run(ctx):
             for p in sorted((core.REPO / "tests").glob("test_flatten_ast.py")):
                 progs.append((str(p.relative_to(core.REPO)), p.read_text(encoding="utf-8")))
         gen2 = fe.Gen(ctx.rng, max_depth=3, adv=0.12, width=3)
-        for i in range(110 if ctx.tier == "quick" else 2500):
+        for i in range(110 if ctx.tier == "quick" else 1800):
             src, tree, _ = fe.gen_valid(gen2)
             if ctx.rng.random() < 0.5:
                 dec = decorate(ctx.rng, src)
@@ -432,7 +443,7 @@ def run(ctx):
             d = ctx.scratch_dir() / f"db-{strategy}"
             d.mkdir()
             n = 0
-            for name, src in picks[: (70 if ctx.tier == "quick" else 1200)]:
+            for name, src in picks[: (70 if ctx.tier == "quick" else 850)]:
                 try:
                     cleaned = cleanup(strategy).run(ut.Source(src))
                     st, lab = e2e.direct(cleaned)
